@@ -184,10 +184,16 @@ func newBattle(c simCfg, withReports bool) (b *battle, errs string) {
 	sim.AddReporter(b.lis)
 	if withReports {
 		b.rec = gmars.NewStateRecorder(sim)
+		if recordReads {
+			b.rec.SetRecordRead(true)
+		}
 		sim.AddReporter(b.rec)
 	}
 	return b, ""
 }
+
+// recordReads: the bundled recorder is switched to also record read accesses (set by the battles command)
+var recordReads = false
 
 func (b *battle) core() []ins {
 	c := make([]ins, b.cfg.M)
@@ -398,7 +404,11 @@ func recordBattle(r *rand.Rand, cfg simCfg, ws []wdata, offs []int, reports bool
 	if b == nil {
 		okv = 0
 	}
-	lines = append(lines, fmt.Sprintf(`{"ev":"new","M":%d,"P":%d,"C":%d,"RL":%d,"WL":%d,"ok":%d,"msg":%q}`, cfg.M, cfg.P, cfg.C, cfg.RL, cfg.WL, okv, errs))
+	rr := 0
+	if recordReads {
+		rr = 1
+	}
+	lines = append(lines, fmt.Sprintf(`{"ev":"new","M":%d,"P":%d,"C":%d,"RL":%d,"WL":%d,"ok":%d,"msg":%q,"reads":%d}`, cfg.M, cfg.P, cfg.C, cfg.RL, cfg.WL, okv, errs, rr))
 	if b == nil {
 		return lines
 	}
@@ -499,7 +509,9 @@ func cmdBattles(args []string) {
 	real := fs.Int("real", 0, "additional battles between repository warriors on the 8000-cell core")
 	realCycles := fs.Int("realcycles", 300, "cycle limit of those battles")
 	repo := fs.String("repo", "/repo", "repository root")
+	reads := fs.Bool("reads", false, "with -reports: switch the StateRecorder to record reads as well")
 	fs.Parse(args)
+	recordReads = *reads
 	r := rand.New(rand.NewSource(*seed))
 	w := newShardWriter(*out, *shards)
 	ms := parseInts(*msFlag)
